@@ -26,6 +26,7 @@ INT_DTYPES = ["i1", "i2", "i4", "i8", "u1", "u2", "u4"]
 FLOAT_DTYPES = ["f4", "f8"]
 STR_WORDS = ["a", "bc", "xyz", "q", "rs", "tuv", "w", "k9", "m", "no", "p", "zz", "y1", "h", "gg", "e2"]
 BAD = 987654321
+NOT_ARRAY = ("compress", "multi", "pair")
 
 
 # ---- value coding -----------------------------------------------------------
@@ -203,7 +204,7 @@ def take(flat, shape, idx):
 def pick_dtype(rng, maxcode, allow_str=True):
     r = rng.random()
     if r < 0.45:
-        cands = [d for d in INT_DTYPES if maxcode <= {"i1": 127, "u1": 255}.get(d, 30000)]
+        cands = [d for d in INT_DTYPES if maxcode <= {"i1": 127, "u1": 250}.get(d, 30000)] or ["i4", "i8"]
         return rng.choice(cands)
     if r < 0.85 or not allow_str or maxcode >= len(STR_WORDS):
         return rng.choice(FLOAT_DTYPES)
@@ -254,8 +255,22 @@ def gen_counts(rng, nrows, maxc):
     return [0 if rng.random() < 0.3 else rng.randrange(0, maxc + 1) for _ in range(nrows)]
 
 
+VTYPES = {"i1": ("I8", -128, 127), "u1": ("U8", 0, 255), "i2": ("I16", -32768, 32767), "u2": ("U16", 0, 65535),
+          "i4": ("I32", -2 ** 31, 2 ** 31 - 1), "u4": ("U32", 0, 2 ** 32 - 1), "i8": ("I64", -2 ** 63, 2 ** 63 - 1)}
+
+
+def pick_vdtype(rng, c):
+    """integer type of the count / index / list variable: any type that holds its values"""
+    vals = [v for k in ("count", "index", "list") if k in c for v in c[k]]
+    lo, hi = min(vals, default=0), max(vals, default=0)
+    cands = [t for t, (_, a, b) in VTYPES.items() if a <= lo and hi <= b]
+    return rng.choice(cands)
+
+
 def case_common(rng, c, maxcode, write_ok=True, thorough=False):
     c["dtype"] = pick_dtype(rng, maxcode)
+    c["vdtype"] = pick_vdtype(rng, c)
+    c["rawfile"] = False
     c["idx"] = gen_index(rng, c["shape"])
     size = prod(c["shape"])
     c["assign"] = None
@@ -420,6 +435,136 @@ def gen_gathered(rng, malformed=False):
     return case_common(rng, c, nlead * S * t + 1)
 
 
+def gen_contig_wide(rng, big=False):
+    """counts that fit a narrow integer type while their sum does not"""
+    if big:
+        vdt = rng.choice(["i2", "u2"])
+        hi = VTYPES[vdt][2]
+        counts = [rng.randrange(hi // 2, hi // 2 + 4000), 0, rng.randrange(hi // 2, hi // 2 + 3000), rng.choice([0, 3, 7])]
+    else:
+        vdt = rng.choice(["i1", "i1", "u1"])
+        hi = VTYPES[vdt][2]
+        nrows = rng.choice([3, 4, 5])
+        counts = [0 if rng.random() < 0.2 else rng.randrange(hi // 3, hi // 2 + hi // 4) for _ in range(nrows)]
+        while sum(counts) <= hi:
+            counts[rng.randrange(nrows)] = rng.randrange(hi // 2, hi + 1)
+    rng.shuffle(counts)
+    n = sum(counts)
+    w = max(counts) + rng.choice([0, 1])
+    cells = [[1 + p] for p in range(n)]
+    c = {"k": "contig", "tag": "valid", "shape": [len(counts), w], "cshape": [n], "count": counts, "cells": cells, "t": 1,
+         "wide": True, "big": big, "nsamples": n}
+    case_common(rng, c, n + 1)
+    if big:
+        c["dtype"] = rng.choice(["i4", "i8"])      # values 1 .. n are their own codes
+    elif c["dtype"] == "U3":
+        c["dtype"] = rng.choice(["f8", "i4", "f4"])
+    c["vdtype"] = vdt
+    if big:
+        c["idx"] = None
+        c["assign"] = None
+    return c
+
+
+def gen_ic_wide(rng):
+    vdt = "i1"
+    nfeat = rng.choice([2, 3])
+    nprofs = [rng.choice([1, 2, 3]) for _ in range(nfeat)]
+    index = [i for i, m in enumerate(nprofs) for _ in range(m)]
+    rng.shuffle(index)
+    counts = [0 if rng.random() < 0.15 else rng.randrange(20, 61) for _ in index]
+    while sum(counts) <= 127:
+        counts[rng.randrange(len(counts))] = rng.randrange(60, 100)
+    n = sum(counts)
+    w = max(counts)
+    cells = [[1 + p] for p in range(n)]
+    c = {"k": "ic", "tag": "valid", "shape": [nfeat, max(nprofs), w], "cshape": [n], "count": counts, "index": index,
+         "cells": cells, "t": 1, "wide": True}
+    case_common(rng, c, n + 1)
+    if c["dtype"] == "U3":
+        c["dtype"] = "f8"
+    c["vdtype"] = vdt
+    return c
+
+
+def clone(c):
+    return json.loads(json.dumps(c))
+
+
+def order_preserving_shuffle(rng, index):
+    """a permutation of the samples that keeps the order of the samples of every instance"""
+    n = len(index)
+    queues = {}
+    for p, i in enumerate(index):
+        queues.setdefault(i, []).append(p)
+    slots = list(index)
+    rng.shuffle(slots)
+    return [queues[i].pop(0) for i in slots]
+
+
+def gen_pair(rng):
+    """two compressed arrays of the same uncompressed shape for equals()"""
+    for _ in range(50):
+        gen = rng.choice([gen_contig, gen_indexed, gen_ic, gen_gathered])
+        a = gen(rng, malformed=False)
+        a["idx"] = None
+        a["assign"] = None
+        if dkind(a["dtype"]) == "s":
+            a["dtype"] = "f8"
+        b = clone(a)
+        mode = rng.choice(["same-compressed-values-different-count-index-list"] * 3 +
+                          ["same-array-different-layout"] * 2 + ["copy", "one-value-differs"])
+        k = a["k"]
+        if mode == "same-compressed-values-different-count-index-list":
+            key = {"contig": "count", "indexed": "index", "gathered": "list"}.get(k) or rng.choice(["count", "index"])
+            v = list(b[key])
+            rng.shuffle(v)
+            if v == a[key]:
+                v = v[::-1]
+            if v == a[key]:
+                continue
+            b[key] = v
+        elif mode == "same-array-different-layout":
+            if k == "contig":
+                b["k"] = "indexed"
+                b["index"] = [i for i, cnt in enumerate(a["count"]) for _ in range(cnt)]
+                del b["count"]
+                if rng.random() < 0.6:
+                    perm = order_preserving_shuffle(rng, b["index"])
+                    b["index"] = [b["index"][p] for p in perm]
+                    b["cells"] = [b["cells"][p] for p in perm]
+            elif k == "indexed":
+                perm = order_preserving_shuffle(rng, a["index"])
+                b["index"] = [a["index"][p] for p in perm]
+                b["cells"] = [a["cells"][p] for p in perm]
+            elif k == "gathered":
+                perm = list(range(len(a["list"])))
+                rng.shuffle(perm)
+                b["list"] = [a["list"][p] for p in perm]
+                b["blocks"] = [[blk[p] for p in perm] for blk in a["blocks"]]
+            else:
+                # indexed contiguous: reorder whole profiles, keeping the order within each feature
+                perm = order_preserving_shuffle(rng, a["index"])
+                starts = [sum(a["count"][:p]) for p in range(len(a["count"]))]
+                b["index"] = [a["index"][p] for p in perm]
+                b["count"] = [a["count"][p] for p in perm]
+                b["cells"] = [cell for p in perm for cell in a["cells"][starts[p]:starts[p] + a["count"][p]]]
+            b["vdtype"] = pick_vdtype(rng, b)
+        elif mode == "copy":
+            b["vdtype"] = pick_vdtype(rng, b)
+        else:
+            cells = b["blocks"] if k == "gathered" else [b["cells"]]
+            flat = [(x, y, z) for x, blk in enumerate(cells) for y, cell in enumerate(blk) for z in range(len(cell))]
+            if not flat:
+                continue
+            x, y, z = rng.choice(flat)
+            cells[x][y][z] = None if cells[x][y][z] is not None and rng.random() < 0.4 else 5000 + rng.randrange(9)
+            if dkind(a["dtype"]) == "i" and a["dtype"] in ("i1", "u1", "i2", "u2"):
+                a["dtype"] = b["dtype"] = "i4"
+        return {"k": "pair", "tag": "valid", "mode": mode, "a": a, "b": b, "dtype": a["dtype"], "shape": a["shape"], "write": False}
+    raise RuntimeError("no pair")
+
+
 def trailing_missing_row(rng, w, base, pint=0.15, pall=0.25):
     """codes for one row: c valid leading cells (some interior missing) then missing"""
     if rng.random() < pall:
@@ -489,6 +634,7 @@ def gen_compress2(rng, inconsistent=False):
     c["dtype"] = rng.choice(["f8", "f8", "f4", "i4", "i8", "i2"])
     c["write"] = False
     c["post"] = gen_post(rng, [n, w], [x for x, y in (("aux", aux), ("other", other)) if y is not None])
+    c["idx"] = gen_index(rng, [n, w]) if rng.random() < 0.5 else None
     return c
 
 
@@ -524,6 +670,7 @@ def gen_compress3(rng, inconsistent=False):
     c["dtype"] = rng.choice(["f8", "f8", "f4", "i4", "i8"])
     c["write"] = False
     c["post"] = gen_post(rng, [nf, npf, w], ["aux"] if aux is not None else [])
+    c["idx"] = gen_index(rng, [nf, npf, w]) if rng.random() < 0.5 else None
     return c
 
 
@@ -573,6 +720,8 @@ def flat_vals(code_list, dtype):
 def payload_case(c, expect):
     if c["k"] == "multi":
         return {"k": "multi", "members": [payload_case(m, None) for m in c["members"]]}
+    if c["k"] == "pair":
+        return {"k": "pair", "a": payload_case(c["a"], None), "b": payload_case(c["b"], None)}
     if c["k"] == "compress":
         dt = c["dtype"]
 
@@ -589,20 +738,25 @@ def payload_case(c, expect):
              "aux": None if c["auxr"] is None else flat_vals(fl(c["auxr"], nd), "f8"),
              "other": None if c["otherr"] is None else flat_vals(fl(c["otherr"], nd), dt),
              "aux2": None if c["aux2r"] is None else flat_vals(fl(c["aux2r"], nd - 1), "f8"),
-             "bounds": c["bounds"], "write": c["write"], "post": None}
+             "bounds": c["bounds"], "write": c["write"], "post": None, "idx": c.get("idx")}
         if c.get("post") is not None:
             kind, pos, v = c["post"]
             pdt = "f8" if kind == "aux" else dt
             p["post"] = [kind, pos, None if v is None else val_of_code(v, pdt)]
         return p
     dt = c["dtype"]
-    if c["k"] == "gathered":
-        flat = [v for b in c["blocks"] for cell in b for v in cell]
+    if c.get("big"):
+        cdata = {"arange": c["nsamples"]}
+    elif c["k"] == "gathered":
+        cdata = flat_vals([v for b in c["blocks"] for cell in b for v in cell], dt)
     else:
-        flat = [v for cell in c["cells"] for v in cell]
+        cdata = flat_vals([v for cell in c["cells"] for v in cell], dt)
     p = {"k": c["k"], "shape": c["shape"], "dtype": dt, "cshape": c["cshape"],
-         "cdata": flat_vals(flat, dt), "idx": c["idx"], "assign": None, "write": c["write"],
-         "expect": None}
+         "cdata": cdata, "idx": c["idx"], "assign": None, "write": c["write"],
+         "expect": None, "vdtype": c.get("vdtype", "i4"), "rawfile": c.get("rawfile", False)}
+    for key in ("ldims", "dims"):
+        if key in c:
+            p[key] = c[key]
     for key in ("count", "index", "list", "cdim", "cdims"):
         if key in c:
             p[key] = c[key]
@@ -653,9 +807,15 @@ def obs_of(row_entry, dtype, key=None):
     return {"err": row_entry["err"]}
 
 
+def g_ty(c):
+    return VTYPES[c.get("vdtype", "i4")][0]
+
+
 def g_case_array(c, r):
     dt = c["dtype"]
-    if "build" in r:
+    if r is None:
+        o = {"err": "OtherErr"}
+    elif "build" in r:
         o = {"err": r["build"]["err"]}
     elif c["idx"] is not None and "ok" in r["array"]:
         o = obs_of(r.get("sub"), dt, "a")
@@ -663,16 +823,35 @@ def g_case_array(c, r):
         o = obs_of(r["array"], dt)
     sh = c["shape"]
     if c["k"] == "contig":
-        return (f"(KContig {gnat(sh[0])} {gnat(sh[1])} {g_nats(sh[2:])} {g_nats(c['count'])} "
+        return (f"(KContig {g_ty(c)} {gnat(sh[0])} {gnat(sh[1])} {g_nats(sh[2:])} {g_zs(c['count'])} "
                 f"{g_cells(c['cells'])} {g_idx(c['idx'])} {g_obs(o)})")
     if c["k"] == "indexed":
-        return (f"(KIndexed {gnat(sh[0])} {gnat(sh[1])} {g_nats(sh[2:])} {g_zs(c['index'])} "
+        return (f"(KIndexed {g_ty(c)} {gnat(sh[0])} {gnat(sh[1])} {g_nats(sh[2:])} {g_zs(c['index'])} "
                 f"{g_cells(c['cells'])} {g_idx(c['idx'])} {g_obs(o)})")
     if c["k"] == "ic":
-        return (f"(KIC {gnat(sh[0])} {gnat(sh[1])} {gnat(sh[2])} {g_nats(sh[3:])} {g_nats(c['count'])} "
+        return (f"(KIC {g_ty(c)} {gnat(sh[0])} {gnat(sh[1])} {gnat(sh[2])} {g_nats(sh[3:])} {g_zs(c['count'])} "
                 f"{g_zs(c['index'])} {g_cells(c['cells'])} {g_idx(c['idx'])} {g_obs(o)})")
-    return (f"(KGathered {g_nats(c['ldims'])} {g_nats(c['dims'])} {g_nats(c['tdims'])} {g_zs(c['list'])} "
+    return (f"(KGathered {g_ty(c)} {g_nats(c['ldims'])} {g_nats(c['dims'])} {g_nats(c['tdims'])} {g_zs(c['list'])} "
             f"{glist(c['blocks'], g_cells)} {g_idx(c['idx'])} {g_obs(o)})")
+
+
+def g_bool(b):
+    return "true" if b else "false"
+
+
+def pair_answers(r, level="data"):
+    """(default, ignore_compression=True, ignore_compression=False) answers, None where the two
+    directions disagree or one raised"""
+    out = []
+    for name in ("default", "ignore", "strict"):
+        xs = [x.get("ok") for x in r[level][name]]
+        out.append(xs[0] if xs[0] == xs[1] and isinstance(xs[0], bool) else None)
+    return out
+
+
+def g_case_pair(c, r):
+    d, i, st = pair_answers(r)
+    return f"(KPair {g_case_array(c['a'], None)} {g_case_array(c['b'], None)} {g_bool(i)} {g_bool(st)})"
 
 
 def g_rows(rows):
@@ -807,11 +986,105 @@ def oracle_array(chk, c, r, exp):
                              {"copy": ex2, "orig": exp}, o)
     if c["write"]:
         failed = oracle_file_array(chk, c, r, exp, bad) or failed
+    if c.get("rawfile"):
+        failed = oracle_rawread(c, r, exp, bad) or failed
+    return failed
+
+
+def oracle_rawread(c, r, exp, bad):
+    """the same compressed array in a file made with netCDF4-python alone, read by cfdm.read
+    with each backend: the user sees the same uncompressed array"""
+    k = c["k"]
+    dt = c["dtype"]
+    if "ok" not in r.get("rawwrite", {}):
+        return bad(f"{k}:rawfile-harness", f"the harness could not write the file: {r.get('rawwrite')}")
+    failed = False
+    for be, ent in r["rawread"].items():
+        sig = f"{k}:read-of-independent-file"
+        if "ok" not in ent or ent["ok"].get("n") != 1:
+            failed = bad(sig, f"cfdm.read(netcdf_backend={be!r}) of a {CTYPE[k]} file written with netCDF4-python "
+                              f"({c['vdtype']} count/index/list variable) failed: {str(ent)[:300]}")
+            continue
+        o = ent["ok"]
+        got = codes(o["array"]["flat"], dt)
+        if o["ctype"] != CTYPE[k] or o["ctype_after"] != CTYPE[k] or not embed_ok(c["shape"], exp, o["array"]["shape"], got):
+            failed = bad(sig, f"data read ({be}) from an independently written {CTYPE[k]} file ({c['vdtype']} count/index/list "
+                              "variable) do not present the array the CF conventions define",
+                         {"ctype": CTYPE[k], "shape": c["shape"], "flat": exp},
+                         {"ctype": o["ctype"], "shape": o["array"]["shape"], "flat": got})
+            continue
+        if any(v != NP_DTYPE[c["vdtype"]] for v in o["vdtypes"].values()):
+            failed = bad(f"{k}:variable-dtype", f"the count/index/list variable read ({be}) has type {o['vdtypes']}, the file has {c['vdtype']}")
+        if "sub" in o:
+            es, eshape = take(exp, c["shape"], c["idx"])
+            sg = o["sub"]
+            if "ok" not in sg or sg["ok"]["shape"] != eshape or codes(sg["ok"]["flat"], dt) != es:
+                failed = bad(f"{k}:subspace", f"subspace {c['idx']} of data read ({be}) from an independently written file is not "
+                                             "the subspace of the uncompressed array", {"shape": eshape, "flat": es}, sg)
+        u = o["uncompress"]
+        if u["ctype_u"] != "" or u["ctype_d"] != CTYPE[k] or not embed_ok(c["shape"], exp, u["a"]["shape"], codes(u["a"]["flat"], dt)):
+            failed = bad(f"{k}:uncompress", f"uncompress() of data read ({be}) from an independently written file", exp, u)
+        if "assign" in o:
+            pos, v = c["assign"]
+            ex2 = list(exp)
+            ex2[pos] = v
+            a_ = o["assign"]
+            if ("ok" not in a_ or a_["ok"]["ctype_e"] != "" or codes(a_["ok"]["a"]["flat"], dt) != ex2
+                    or a_["ok"]["ctype_d"] != CTYPE[k] or codes(a_["ok"]["d"]["flat"], dt) != exp):
+                failed = bad(f"{k}:assign", f"assignment to a copy of data read ({be}) from an independently written file", ex2, a_)
+        for key, want in (("eq", True), ("eq_p", False)):
+            if key in o and o[key].get("ok") != [want, want]:
+                failed = bad(f"{k}:equals", f"data read ({be}) from an independently written file: equals with the "
+                                           f"{'uncompressed array' if want else 'perturbed array'} answered {o[key]}", want, o[key])
+    if r.get("alias"):
+        pass
+    return failed
+
+
+def pair_expected(c):
+    ea, eb = expected_array(c["a"]), expected_array(c["b"])
+
+    def carr(x):
+        if x["k"] == "gathered":
+            return [x["cshape"], [v for b in x["blocks"] for cell in b for v in cell]]
+        return [x["cshape"], [v for cell in x["cells"] for v in cell]]
+    default = c["a"]["shape"] == c["b"]["shape"] and ea == eb
+    strict = default and c["a"]["k"] == c["b"]["k"] and carr(c["a"]) == carr(c["b"])
+    return default, strict, ea, eb
+
+
+def oracle_pair(chk, c, r):
+    """equals() on two compressed data: equality of the uncompressed arrays (and, with
+    ignore_compression=False, of the compression type and the compressed arrays as well) -
+    through Data.equals, a metadata construct's equals and Field.equals"""
+    def bad(sig, what, expected=None, observed=None):
+        chk.fail("property", sig, what, {"input": c_public(c), "expected": expected, "observed": observed})
+        return True
+    if "driver_error" in r:
+        return bad("equals:driver", r["driver_error"])
+    default, strict, ea, eb = pair_expected(c)
+    dt = c["dtype"]
+    failed = False
+    if [codes(x["flat"], dt) for x in r["arrays"]] != [ea, eb]:
+        return bad(f"{c['a']['k']}:decode", "the arrays of the pair are not those the CF conventions define", [ea, eb], r["arrays"])
+    want = {"default": default, "ignore": default, "strict": strict}
+    for level in ("data", "construct", "field", "field_aux_only"):
+        for name, w in want.items():
+            got = [x.get("ok", x.get("err")) for x in r[level][name]]
+            if got != [w, w]:
+                kw = {"default": "", "ignore": ", ignore_compression=True", "strict": ", ignore_compression=False"}[name]
+                failed = bad(f"equals:{level}:{c['mode']}",
+                             f"{level}: x.equals(y{kw}) and the converse answered {got} for two {CTYPE[c['a']['k']]} / {CTYPE[c['b']['k']]} "
+                             f"data whose uncompressed arrays are {'equal' if default else 'different'}"
+                             + ("" if name != "strict" else f" and whose compressed forms are {'the same' if strict else 'different'}"),
+                             w, {"answers": got, "a": ea, "b": eb})
+    if r["ctypes_after"] != r["ctypes"]:
+        failed = bad("equals:stays-compressed", "comparing decompressed one of the data", r["ctypes"], r["ctypes_after"])
     return failed
 
 
 def c_public(c):
-    return {k: v for k, v in c.items() if k not in ("t",)}
+    return {k: v for k, v in c.items() if k not in ("t",) and not (k == "cells" and c.get("big"))}
 
 
 def raw_find(raw, attr):
@@ -893,7 +1166,7 @@ def embed_ok(full_shape, full, small_shape, small):
     return all(v is None for p, v in enumerate(full) if p not in inside)
 
 
-def oracle_file_common(chk, kindname, dtype, full_shape, exp, r, bad, ctype):
+def oracle_file_common(chk, kindname, dtype, full_shape, exp, r, bad, ctype, idx=None):
     failed = False
     w = r.get("write", {})
     if "ok" not in w:
@@ -917,6 +1190,15 @@ def oracle_file_common(chk, kindname, dtype, full_shape, exp, r, bad, ctype):
             failed = bad(f"{kindname}:reread", f"reading the written file back failed: {rr}")
         else:
             hs = rr["ok"]["array"]
+            for key in ("sub", "sub_field"):
+                if key in rr["ok"] and idx is not None:
+                    es, eshape = take(exp, full_shape, idx)
+                    sg = rr["ok"][key]
+                    if key == "sub_field" and 0 in eshape:
+                        continue    # a Field refuses an empty subspace with IndexError, by design
+                    if "ok" not in sg or sg["ok"]["shape"] != eshape or codes(sg["ok"]["flat"], dtype) != es:
+                        failed = bad(f"{kindname}:reread-subspace", f"subspace {idx} ({key}) of the field read back from the written file is not the subspace of the array",
+                                     {"shape": eshape, "flat": es}, sg)
             if rr["ok"]["ctype"] != ctype or not embed_ok(full_shape, exp, hs["shape"], codes(hs["flat"], dtype)):
                 failed = bad(f"{kindname}:reread", "the field read back from the written file does not present the same array",
                              {"ctype": ctype, "shape": full_shape, "flat": exp}, {"ctype": rr["ok"]["ctype"], "shape": hs["shape"], "flat": codes(hs["flat"], dtype)})
@@ -924,7 +1206,7 @@ def oracle_file_common(chk, kindname, dtype, full_shape, exp, r, bad, ctype):
 
 
 def oracle_file_array(chk, c, r, exp, bad):
-    return oracle_file_common(chk, c["k"], c["dtype"], c["shape"], exp, r, bad, CTYPE[c["k"]])
+    return oracle_file_common(chk, c["k"], c["dtype"], c["shape"], exp, r, bad, CTYPE[c["k"]], c.get("idx"))
 
 
 def flat_nested(x, depth):
@@ -969,6 +1251,26 @@ def oracle_compress(chk, c, r):
         failed = bad(f"{kind}:returned-array-aliases-internal-state",
                      "an array returned by the implementation was overwritten in place and the next read changed: "
                      + ", ".join(x["what"] for x in r["alias"]), None, r["alias"][:3])
+    if c.get("idx") is not None and "sub" in r and not failed:
+        es, eshape = take(exp, c["shape"], c["idx"])
+        sb = r["sub"]
+        empty = 0 in eshape     # a Field (unlike Data) refuses an empty subspace with IndexError, by design
+        for lvl in ("data", "field"):
+            g_ = sb[lvl]
+            if lvl == "field" and empty:
+                continue
+            if "ok" not in g_ or g_["ok"]["shape"] != eshape or codes(g_["ok"]["flat"], dt) != es:
+                failed = bad(f"{kind}:subspace", f"subspace {c['idx']} of the compressed field ({lvl}) is not the subspace of the original array",
+                             {"shape": eshape, "flat": es}, g_)
+        for name, (ncvar, cdt, e) in construct_arrays(c).items():
+            g_ = sb["cons"].get(name, {})
+            ec, _ = take(e, c["shape"], c["idx"])
+            if empty:
+                continue
+            if "ok" not in g_ or codes(g_["ok"]["flat"], cdt) != ec:
+                failed = bad(f"{kind}:subspace", f"subspace {c['idx']} of the compressed field: construct {name} does not show the subspace of its array", ec, g_)
+        if sb["ctype_after"] != r["ctype"]:
+            failed = bad(f"{kind}:stays-compressed", "subspacing the compressed field decompressed it")
     if r["f_unchanged"].get("ok") is not True:
         failed = bad(f"{kind}:source-changed", "compress(inplace=False) changed its source field", None, r["f_unchanged"])
     # constructs spanning the same axes
@@ -988,7 +1290,7 @@ def oracle_compress(chk, c, r):
             if "ok" not in b or b["ok"]["flat"] != ent["bounds0"]["flat"] or b["ok"]["shape"] != ent["bounds0"]["shape"]:
                 failed = bad(f"{kind}:bounds", "the bounds of the auxiliary coordinate changed under compress", ent.get("bounds0"), b)
     if c["write"] and not failed:
-        failed = oracle_file_common(chk, kind, dt, c["shape"], exp, r, bad, CTYPE[c["method"]]) or failed
+        failed = oracle_file_common(chk, kind, dt, c["shape"], exp, r, bad, CTYPE[c["method"]], c.get("idx")) or failed
         if not failed:
             failed = oracle_file_constructs(c, r["raw"]["ok"], r.get("reread_all", {}), "", kind, bad)
     if c.get("post") is not None and not failed:
@@ -1256,6 +1558,26 @@ CORPUS = [
     {"k": "compress", "tag": "valid", "method": "contiguous", "shape": [2, 3],
      "rows": [[1, 2, None], [3, None, None]], "auxr": [[101, 102, None], [103, None, None]], "otherr": None,
      "aux2r": None, "bounds": False, "dtype": "f8", "write": False, "post": ["data", 0, 9]},
+    # third pass: int8 count variable whose counts add up to more than int8 holds (in memory and
+    # in a file written with netCDF4-python)
+    {"k": "contig", "tag": "valid", "shape": [4, 60], "cshape": [150], "count": [60, 50, 0, 40],
+     "cells": [[1 + p] for p in range(150)], "t": 1, "dtype": "f8", "vdtype": "i1", "idx": None, "assign": None,
+     "write": True, "rawfile": True, "wide": True},
+    # third pass: the same compressed values under different count / list variables are different arrays
+    {"k": "pair", "tag": "valid", "mode": "same-compressed-values-different-count-index-list", "dtype": "f8", "shape": [2, 3],
+     "write": False,
+     "a": {"k": "contig", "tag": "valid", "shape": [2, 3], "cshape": [4], "count": [1, 3], "cells": [[1], [2], [3], [4]],
+           "t": 1, "dtype": "f8", "vdtype": "i4", "idx": None, "assign": None, "write": False},
+     "b": {"k": "contig", "tag": "valid", "shape": [2, 3], "cshape": [4], "count": [3, 1], "cells": [[1], [2], [3], [4]],
+           "t": 1, "dtype": "f8", "vdtype": "i4", "idx": None, "assign": None, "write": False}},
+    {"k": "pair", "tag": "valid", "mode": "same-compressed-values-different-count-index-list", "dtype": "f8", "shape": [2, 3],
+     "write": False,
+     "a": {"k": "gathered", "tag": "valid", "shape": [2, 3], "cshape": [4], "ldims": [], "dims": [2, 3], "tdims": [],
+           "list": [0, 2, 3, 5], "blocks": [[[1], [2], [3], [4]]], "t": 1, "cdim": 0, "cdims": [0, 1], "dtype": "f8",
+           "vdtype": "i4", "idx": None, "assign": None, "write": False},
+     "b": {"k": "gathered", "tag": "valid", "shape": [2, 3], "cshape": [4], "ldims": [], "dims": [2, 3], "tdims": [],
+           "list": [5, 3, 2, 0], "blocks": [[[1], [2], [3], [4]]], "t": 1, "cdim": 0, "cdims": [0, 1], "dtype": "f8",
+           "vdtype": "i4", "idx": None, "assign": None, "write": False}},
     # open: compress, assign to a construct spanning the field's axes, write
     {"k": "compress", "tag": "valid", "method": "contiguous", "shape": [2, 3],
      "rows": [[1, 2, None], [3, None, None]], "auxr": [[101, 102, None], [103, None, None]], "otherr": None,
@@ -1269,7 +1591,7 @@ def is_valid(c):
 
 def nontrivial(c):
     """rule used for coverage: see chk.coverage['rule']"""
-    if c["k"] == "multi":
+    if c["k"] in ("multi", "pair"):
         return True
     if c["k"] == "compress":
         flat = flat_nested(c["rows"], len(c["shape"]))
@@ -1303,6 +1625,14 @@ def generate(chk):
         cases.append(gen_compress3(rng, inconsistent=True))
     for _ in range(60 * scale):
         cases.append(gen_multi(rng))
+    for _ in range(40 * scale):
+        cases.append(gen_contig_wide(rng))
+    for _ in range(20 * scale):
+        cases.append(gen_ic_wide(rng))
+    for _ in range(2 if not thorough else 8):
+        cases.append(gen_contig_wide(rng, big=True))
+    for _ in range(200 * scale):
+        cases.append(gen_pair(rng))
     # file level: a share of the valid cases is also written and inspected
     nfiles = 0
     budget = 1500 if thorough else 300
@@ -1312,18 +1642,32 @@ def generate(chk):
         c = cases[i]
         if nfiles >= budget:
             break
-        if not is_valid(c) or dkind(c["dtype"]) == "s" or c["k"] == "multi":
+        if not is_valid(c) or dkind(c["dtype"]) == "s" or c["k"] in ("multi", "pair") or c.get("big"):
             continue
         c["write"] = True
         nfiles += 1
+    # the other file route: a file written with netCDF4-python alone, read with both backends
+    nraw = 0
+    rng.shuffle(order)
+    for i in order:
+        c = cases[i]
+        if c["k"] in ("compress", "multi", "pair") or not is_valid(c) or dkind(c["dtype"]) == "s":
+            continue
+        if c.get("wide") or nraw < (1200 if thorough else 220):
+            c["rawfile"] = True
+            nraw += 1
     return cases
 
 
 def run(chk, model_ok):
+    import time
+    t0 = time.time()
+    timing = {}
     cases = generate(chk)
+    timing["generate_s"] = round(time.time() - t0, 1)
     expects = []
     for c in cases:
-        if c["k"] not in ("compress", "multi") and is_valid(c):
+        if c["k"] not in NOT_ARRAY and is_valid(c):
             expects.append(expected_array(c))
         else:
             expects.append(None)
@@ -1346,6 +1690,7 @@ def run(chk, model_ok):
                      f"C06 worker {w} stopped (rc={rc}) at case {culprit}: {err[-400:]}",
                      {"correspondence": "drive/c06.py", "input": c_public(cases[culprit]) if culprit is not None else None})
     done = [(i, cases[i], rows[i]) for i in range(len(cases)) if rows[i] is not None]
+    timing["implementation_s"] = round(time.time() - t0, 1)
 
     # ---- property oracle on the implementation ----
     explained = set()
@@ -1357,6 +1702,9 @@ def run(chk, model_ok):
         if c["k"] == "multi":
             oracle_multi(chk, c, r)
             explained.add(i)
+        elif c["k"] == "pair":
+            if oracle_pair(chk, c, r):
+                explained.add(i)
         elif c["k"] == "compress":
             if oracle_compress(chk, c, r):
                 explained.add(i)
@@ -1364,15 +1712,20 @@ def run(chk, model_ok):
             if oracle_array(chk, c, r, expects[i]):
                 explained.add(i)
 
+    timing["oracle_s"] = round(time.time() - t0, 1)
     # ---- correspondence with the model ----
     ncorr = 0
     if model_ok:
         lits, idxs = [], []
         for i, c, r in done:
-            if "driver_error" in r or c["k"] == "multi":
+            if "driver_error" in r or c["k"] == "multi" or c.get("big"):
                 continue
             try:
-                if c["k"] == "compress":
+                if c["k"] == "pair":
+                    if None in pair_answers(r)[1:]:
+                        continue    # the oracle has reported it
+                    lits.append(g_case_pair(c, r))
+                elif c["k"] == "compress":
                     if "ok" not in r["compress"]:
                         continue
                     lits.append(g_case_compress(c, r))
@@ -1393,12 +1746,15 @@ def run(chk, model_ok):
                      {"correspondence": "C06.Run.check_case", "input": c_public(cases[i]),
                       "observed": {k: rows[i].get(k) for k in ("build", "array", "sub", "anc", "carr", "compress")}})
 
+    timing["correspondence_s"] = round(time.time() - t0, 1)
     # ---- coverage ----
     fam, tags, dts, sizes = {}, {}, {}, {}
     for i, c, r in done:
         key = c["k"] if c["k"] != "compress" else "compress-" + c["method"]
         if c["k"] == "multi":
             key = "multi:" + "+".join(m["method"] for m in c["members"])
+        if c["k"] == "pair":
+            key = "pair:" + c["mode"]
         fam[key] = fam.get(key, 0) + 1
         tags[c.get("tag")] = tags.get(c.get("tag"), 0) + 1
         dts[c["dtype"]] = dts.get(c["dtype"], 0) + 1
@@ -1406,7 +1762,7 @@ def run(chk, model_ok):
     distinct = {lib.canon({k: v for k, v in c.items() if k not in ("write", "assign")}) for i, c, r in done if nontrivial(c)}
     errs = {}
     for i, c, r in done:
-        if c["k"] not in ("compress", "multi"):
+        if c["k"] not in NOT_ARRAY:
             e = r.get("build", r.get("array", {})).get("err", "Ok")
             errs[e] = errs.get(e, 0) + 1
     feat = {
@@ -1415,9 +1771,9 @@ def run(chk, model_ok):
         "unsorted_index": sum(1 for i, c, r in done if c["k"] in ("indexed", "ic") and c["index"] != sorted(c["index"])),
         "unsorted_list": sum(1 for i, c, r in done if c["k"] == "gathered" and c["list"] != sorted(c["list"])),
         "sparse_list": sum(1 for i, c, r in done if c["k"] == "gathered" and len(c["list"]) < prod(c["dims"])),
-        "trailing_dims": sum(1 for i, c, r in done if c["k"] not in ("compress", "multi") and c["t"] > 1),
+        "trailing_dims": sum(1 for i, c, r in done if c["k"] not in NOT_ARRAY and c["t"] > 1),
         "leading_dims": sum(1 for i, c, r in done if c["k"] == "gathered" and c["ldims"]),
-        "masked_compressed_values": sum(1 for i, c, r in done if c["k"] not in ("compress", "multi") and any(
+        "masked_compressed_values": sum(1 for i, c, r in done if c["k"] not in NOT_ARRAY and any(
             v is None for cell in (c["cells"] if "cells" in c else [x for b in c["blocks"] for x in b]) for v in cell)),
         "subspaces": sum(1 for i, c, r in done if c.get("idx") is not None),
         "assignments": sum(1 for i, c, r in done if c.get("assign") is not None),
@@ -1434,6 +1790,10 @@ def run(chk, model_ok):
         "zero_sample_files": sum(1 for i, c, r in done if c.get("write") and c["k"] == "compress"
                                  and all(v is None for v in flat_nested(c["rows"], len(c["shape"])))),
         "files_with_several_compressed_fields": sum(1 for i, c, r in done if c["k"] == "multi"),
+        "files_written_with_netCDF4_and_read_with_both_backends": sum(1 for i, c, r in done if c.get("rawfile")),
+        "count_sum_beyond_range_of_count_type": sum(1 for i, c, r in done if c.get("wide")),
+        "count_index_list_variable_types": {t: sum(1 for i, c, r in done if c.get("vdtype") == t) for t in VTYPES},
+        "equals_pairs_compressed_vs_compressed": sum(1 for i, c, r in done if c["k"] == "pair"),
         "returned_arrays_overwritten_then_reread": sum(1 for i, c, r in done if "alias" in r),
     }
     samples = [c_public(done[k][1]) for k in (len(CORPUS), len(done) // 2, len(done) - 1) if k < len(done)]
@@ -1448,7 +1808,7 @@ def run(chk, model_ok):
         "disagreements_checked": ncorr,
         "families": fam, "input_classes": tags, "dtypes": dts, "ranks": sizes,
         "outcome_classes_array_cases": errs, "features_hit": feat,
-        "exhaustive": False,
+        "exhaustive": False, "cumulative_wall": timing,
         "historical_refutations": "C06/Refuted.v: witnesses against the pinned code (F06a absent instance, F06b/c dropped "
                                   "zero counts, F06d clipped trailing dimension, F06e mask lost inside a feature)",
     })
@@ -1481,18 +1841,20 @@ def replay(chk, path):
         c = x.get("case") or x.get("input")
         if c and "k" in c:
             c = dict(c)
-            if c["k"] not in ("compress", "multi"):
+            if c["k"] not in NOT_ARRAY:
                 c.setdefault("t", prod(c["shape"][{"contig": 2, "indexed": 2, "ic": 3}.get(c["k"], 0):]) if c["k"] != "gathered" else prod(c["tdims"]))
             cases.append(c)
     if not cases:
         print("no replayable case in", path)
         return 0
-    expects = [expected_array(c) if c["k"] not in ("compress", "multi") and is_valid(c) else None for c in cases]
+    expects = [expected_array(c) if c["k"] not in NOT_ARRAY and is_valid(c) else None for c in cases]
     rc, out, err = lib.run_worker("drive/c06.py", {"scratch": chk.scratch, "cases": [payload_case(c, e) for c, e in zip(cases, expects)]})
     bad = 0
     for c, e, r in zip(cases, expects, out):
         n0 = len(chk.failures)
-        if c["k"] == "multi":
+        if c["k"] == "pair":
+            oracle_pair(chk, c, r)
+        elif c["k"] == "multi":
             oracle_multi(chk, c, r)
         elif c["k"] == "compress":
             oracle_compress(chk, c, r)
